@@ -387,3 +387,77 @@ func (a *Analysis) isSectionEndStatic(in ssa.Instruction) (string, bool) {
 	}
 	return "", false
 }
+
+// ruleReplyTerm: C08 REPLY-TERM.
+func ruleReplyTerm() *Rule {
+	const id = "REPLY-TERM"
+	return &Rule{
+		ID: id,
+		Text: "Every reply of the three RPC handlers that is returned without error carries the node's term: whenever response.Term or currentTerm was last written in the invocation, the two were equal " +
+			"(a handler that raises currentTerm must refresh response.Term; a handler must set response.Term at all). Together with TERM-MONO this makes the term seen in replies non-decreasing.",
+		Floor: 3,
+		Run: func(p *Program) []Obligation {
+			var out []Obligation
+			curTerm := p.Field("Raft.currentTerm")
+			for _, h := range []struct{ fn, resp string }{
+				{"(*Raft).AppendEntries", "AppendEntriesResponse"},
+				{"(*Raft).RequestVote", "RequestVoteResponse"},
+				{"(*Raft).InstallSnapshot", "InstallSnapshotResponse"},
+			} {
+				root := p.Func(h.fn)
+				respTerm := p.Field(h.resp + ".Term")
+				if root == nil || respTerm == nil {
+					out = append(out, missing(id, h.fn)...)
+					continue
+				}
+				sp := NewSpace(
+					CmpAtom("respTerm?curTerm", "p1.Term", "r.currentTerm"),
+					CmpAtom("reqTerm?curTerm", "p0.Term", "r.currentTerm"),
+					CmpAtom("respTerm?reqTerm", "p1.Term", "p0.Term"),
+					GhostAtom("replyTermCurrent", "no", "yes"),
+				)
+				a := NewAnalysis(p, sp)
+				a.Post = func(a *Analysis, f *Frame, in ssa.Instruction, st State) State {
+					if s, fld := storeField(in); s != nil && (fld == respTerm || fld == curTerm) {
+						return sp.Map(st, 3, func(pt, old int) uint32 {
+							if sp.Val(pt, 0) == EQ {
+								return 1 << 1
+							}
+							return 1 << 0
+						})
+					}
+					return st
+				}
+				a.Hook = func(a *Analysis, f *Frame, in ssa.Instruction, st State) State {
+					if ret, ok := exitPoint(in); ok && f.Parent == nil && returnedError(ret) == "nil" {
+						n := instrOrdinal(ret, func(x ssa.Instruction) bool { _, ok := x.(*ssa.Return); return ok })
+						a.Observe(fmt.Sprintf("reply returned at return #%d of %s", n, h.fn), f, in, st)
+					}
+					return st
+				}
+				a.RunFrame(NewRootFrame(root), sp.Filter(sp.Top(), 3, 1))
+				var bad []string
+				pos := ""
+				for _, o := range a.SortedObs() {
+					pos = o.Pos
+					if !sp.Filter(o.State, 3, 1<<0).IsEmpty() {
+						bad = append(bad, o.Key+" ("+o.Pos+")")
+					}
+				}
+				ob := Obligation{Rule: id, Construct: "term carried by the replies of " + h.fn, Pos: pos}
+				switch {
+				case len(a.Obs) == 0:
+					ob.Verdict, ob.Detail = Undecided, "no error-free return found"
+				case len(bad) > 0:
+					ob.Verdict = Violated
+					ob.Detail = "a reply can be returned whose Term was not the node's current term when either was last written (response.Term never set, or not refreshed after currentTerm was raised): the term seen in this node's replies can go backwards / a stale leader is not told the newer term"
+					ob.Facts = bad
+				default:
+					ob.Verdict, ob.Detail = Discharged, fmt.Sprintf("%d return(s): response.Term = currentTerm at the last write of either", len(a.Obs))
+				}
+				out = append(out, ob)
+			}
+			return out
+		},
+	}
+}
